@@ -28,7 +28,8 @@ EXPLANATION = (
     'initializers accept it. (I4) the number of keypoints the equal_slopes '
     'initializer turns into a [rows, 1] tensor equals the number of kernel '
     'rows in both cyclic modes. (W1) Lattice / KFL __init__ forward their bounds '
-    'and init range to the factory unchanged.')
+    'and init range to the factory unchanged.'
+    ' String hyper-parameters validated through .lower() are never compared raw by an initialiser (V3c across modules).')
 ASSUMPTIONS = ['an initializer object influences the kernel only through its '
                'constructor arguments',
                'min / max / comparison semantics of Python floats']
